@@ -88,10 +88,51 @@ def run(chk, runner_ok):
     if model:
         outs = model.call([(1, [canon(s), sp, off]) for s, sp, off in pcases])
         chk.correspond("POSITION", pcases, impl, outs)
+    dtd_tuple_positions(chk, model)
     entity_positions(chk)
     check_positions(chk)
     android_positions(chk)
     lint_positions(chk)
+
+
+def dtd_tuple_positions(chk, model):
+    """DTDEntityMixin.value_position((line_pos, col_pos)): the tuple arm, on parsed DTD entities.
+    Oracle (C17_bounds_dtd_partial): a pair designating an offset of the value resolves inside
+    [entity start, EOF]; the exact result is compared with the model (C17_dtd_position_exact)."""
+    from compare_locales import parser
+    rng = chk.rng
+    cases, impl = [], []
+    vals = ["x", "one two", "a\nb", "\nlead", "tail\n", "a\n\n  b\nccc", "", "&amp; <b>x</b>\n y"]
+    for _ in range(chk.n(300, 3000)):
+        ents = []
+        for i in range(rng.randint(1, 3)):
+            pre = rng.choice(["", "\n", "  ", "<!-- c -->\n", "\n\n<!-- c\nd -->\n"])
+            q = rng.choice("\"'")
+            ents.append(f"{pre}<!ENTITY k{i} {q}{rng.choice(vals)}{q}>")
+        text = "".join(ents) + rng.choice(["", "\n"])
+        p = parser.getParser("x.dtd")
+        p.readUnicode(text)
+        for e in p.walk():
+            if not isinstance(e, parser.Entity):
+                continue
+            v = e.raw_val
+            a = e.val_span[0]
+            start, eof = tuple(e.position()), tuple(expected_linecol(text, len(text)))
+            for k in range(len(v) + 1):
+                lp, cp = 1 + v[:k].count("\n"), k - (v.rfind("\n", 0, k) + 1)
+                got = list(e.value_position((lp, cp)))
+                cases.append((text, a, lp, cp)); impl.append([got])
+                chk.count(("dtdpos", text, a, lp, cp))
+                # the property's clause is the bound; the exact value is tied by DTD-POSITION
+                if not (start <= tuple(got) <= eof):
+                    chk.fail("dtd-tuple-position", {"text": text, "value_start": a, "pair": [lp, cp]},
+                             {"got": got, "entity_start": start, "eof": eof})
+            # pairs outside the contract (line 0, columns past the line): correspondence only
+            for lp, cp in ((0, 0), (0, rng.randint(0, 20)), (rng.randint(1, 4), rng.randint(0, 30))):
+                cases.append((text, a, lp, cp)); impl.append([list(e.value_position((lp, cp)))])
+    if model:
+        outs = model.call([(3, [canon(t), a, lp, cp]) for t, a, lp, cp in cases])
+        chk.correspond("DTD-POSITION", cases, impl, outs)
 
 
 def expected_linecol(s, p):
